@@ -1380,6 +1380,7 @@ class SetIndexBlockwise(Blockwise):
                 dependents,
                 additional_columns=_convert_to_list(self.other),
             )
+            columns = _labels_to_list(columns)
             if self.frame.columns == columns:
                 return
             columns = [col for col in self.frame.columns if col in columns]
